@@ -1,5 +1,6 @@
 import NimaVerif.Model.SExp
 import NimaVerif.Drv.Names
+import NimaVerif.Drv.Trivia
 import NimaVerif.Drv.Edit
 import NimaVerif.Drv.Cli
 import NimaVerif.Drv.Paths
@@ -14,6 +15,7 @@ open Nima
 
 def handlers : List (SExp → Option SExp) := [
   Nima.Drv.Names.handle,
+  Nima.Drv.Trivia.handle,
   Nima.Drv.Edit.handle,
   Nima.Drv.Cli.handle,
   Nima.Drv.Paths.handle,
